@@ -977,12 +977,14 @@ func (self *_parser) parseRelationalExpression() ast.Expression {
 		if self.token == token.IN {
 			self.next()
 			return &ast.BinaryExpression{
-				Operator: self.token,
+				Operator: token.IN,
 				Left:     left,
 				Right:    self.parseShiftExpression(),
 			}
 		}
-		return left
+		// a private name on its own is only valid as the left operand of 'in'
+		self.error(left.Idx, "Unexpected private field")
+		return &ast.BadExpression{From: left.Idx, To: self.idx}
 	}
 	left := self.parseShiftExpression()
 
